@@ -24,7 +24,7 @@ def classify(prop, v, **ctx):
     v.setdefault("finding", None)
     if v.get("finding"):
         return v["finding"]
-    generic = (history_dependent_rounding_fold, inconsistent_assumptions_after_history, trig_of_inverse_trig_overflow, saturated_sigmoid_linearisation, float64_overflow_counterfactual)
+    generic = (history_dependent_rounding_fold, inconsistent_assumptions_after_history, divisor_folded_to_zero, python_float_division_by_zero, inverse_trig_of_constant_generic, trig_of_inverse_trig_overflow, saturated_sigmoid_linearisation, float64_overflow_counterfactual)
     for fn in MATCHERS.get(prop, []) + list(generic):
         try:
             fid = fn(v, prop=prop, **ctx) if fn in generic else fn(v, **ctx)
@@ -33,6 +33,41 @@ def classify(prop, v, **ctx):
         if fid:
             v["finding"] = fid
             return fid
+    return None
+
+
+def divisor_folded_to_zero(v, prop="", text="", **kw):
+    """A divisor that sympy evaluates to exactly 0 when the model is loaded (a literal 0, Mod(tau, tau), x - x in a branch)
+    turns the quotient into zoo (ComplexInfinity), which no printer knows: code generation raises (loud)."""
+    if prop not in ("C01", "C02", "C03") or v.get("kind") not in ("codegen_raises", "generation_raises"):
+        return None
+    exc = (v.get("detail") or {}).get("exc") or ""
+    if "ComplexInfinity" in exc or re.search(r"(?<![\w.])zoo(?![\w.])", exc):
+        return f"{prop}-divisor-folded-to-zero-becomes-zoo"
+    return None
+
+
+def python_float_division_by_zero(v, prop="", text="", **kw):
+    """`ZeroDivisionError: float division by zero` (or `float modulo`) can only come from Python floats: a sub-expression made
+    of constants only (literals, constant intermediates such as f1 = 1 + 0.1) is evaluated by Python itself, eagerly, also
+    in the branch of a Conditional that is not selected; with arrays the same quotient is inf / nan and where() discards it."""
+    if prop not in ("C01", "C03", "C05", "C06", "C07", "C12", "C14") or v.get("kind") not in ("raises", "rhs_raises", "scheme_raises", "batch_raises"):
+        return None
+    exc = (v.get("detail") or {}).get("exc") or ""
+    if "ZeroDivisionError: float division by zero" in exc or "ZeroDivisionError: float modulo" in exc or "ZeroDivisionError: division by zero" in exc:
+        return f"{prop}-constant-subexpression-divides-by-zero-in-python"
+    return None
+
+
+def inverse_trig_of_constant_generic(v, prop="", text="", ref=None, **kw):
+    if prop != "C03" or v.get("kind") != "value" or ref is None:
+        return None
+    d = v.get("detail", {})
+    root = d.get("name")
+    if root in ref.derivs:
+        root = ref.derivs[root]
+    if root in ref.assigns and inverse_trig_of_constant(ref, root):
+        return "C03-inverse-trig-of-constant-rewritten-with-cancellation"
     return None
 
 
@@ -438,7 +473,8 @@ def c01_matchers(v, text="", features=None, ode=None, ref=None, code=None, reche
     if kind == "value" and ref is not None and root in ref.assigns and ode is not None:
         import sympy
 
-        if inverse_trig_of_constant(ref, root) and ode[root].expr.has(sympy.pi) and not ode[root].expr.has(sympy.asin, sympy.acos, sympy.atan):
+        if inverse_trig_of_constant(ref, root) and ode[root].expr.has(sympy.pi) and "pi" not in ref.assigns[root].rhs:
+            # (the text does not mention pi: it can only come from the rewrite)
             return "C01-inverse-trig-of-constant-rewritten-with-cancellation"
     if kind == "value" and ode is not None and recheck:
         try:
